@@ -189,7 +189,7 @@ def build_evidence(pid, cfg, tier, seed, results, kani_results, violations, know
             if pid in failure_props(c):
                 failed_by_frag.setdefault(c["frag"].qualname if c["frag"] else "?", []).append(failure_name(r.name, c))
         for f in r.functions:
-            if f["kind"] in ("fn", "region"):
+            if f["kind"] in ("fn", "region") and pid in f.get("serves", []):
                 functions.append({"unit": r.name, **f})
         # labelled clauses charged to this property
         labs = [(l, ps) for (l, ps) in r.labels if pid in ps]
@@ -201,7 +201,7 @@ def build_evidence(pid, cfg, tier, seed, results, kani_results, violations, know
             obligations.append({"name": "%s::%s" % (r.name, l), "backend": "verus/z3", "discharged": ok})
         # implicit obligations: one bucket per contracted function that this unit verifies for this property
         for f in r.functions:
-            if f.get("contracted"):
+            if f.get("contracted") and pid in f.get("serves", []):
                 n_obl += 1
                 bad = [x for x in failed_by_frag.get(f["name"], []) if "::post:" not in x]
                 ok = not bad and r.status != "undecided"
